@@ -373,13 +373,67 @@ pub fn run(args: &[Sx]) -> Sx {
     a
 }
 
+/// insert_row_with / insert_column_with hand an ITERATOR to the crate: the same values through every
+/// iterator SHAPE (crate::shapes; on copies of the matrix as it was before) must give the outcome
+/// and the matrix that the exact-size `vec::IntoIter` gave.  Codes 1150 + shape (row form),
+/// 1170 + shape (column form).  Lying size hints: insert_row_with reads through `take(columns)`,
+/// so every lying hint is harmless and compared; insert_column_with collects the whole iterator,
+/// so a lying LOWER bound of usize::MAX (shapes 12 / 15) panics with "capacity overflow" as soon as
+/// there is a first value - there the requirement is: the canonical outcome, or a panic that leaves
+/// the matrix untouched (codes 1190 + shape).  A hand-off also must not poll the iterator again
+/// after its first None (shape 9 would then supply one more value).
+fn insert_with_shapes<E: Elem>(before: &Matrix<E>, after: &Matrix<E>, fine: bool, row_form: bool, at: usize, vs: &[i64]) -> Result<(), i64> {
+    use crate::shapes::{self, with_shape};
+    let key = vs.iter().fold(at as u64 ^ 0x9e37, |h, &v| h.wrapping_mul(31).wrapping_add(v as u64))
+        .wrapping_add(7 * before.rows() as u64 + before.columns() as u64 + vs.len() as u64);
+    let lying: &[u8] = if row_form { &shapes::LYING } else { &shapes::LYING_SMALL };
+    let call = |copy: &mut Matrix<E>, shape: u8| -> bool {
+        with_shape!(shape, elems::<E>(vs.to_vec()), |it| {
+            if row_form {
+                guarded(|| copy.insert_row_with(at, it)).is_some()
+            } else {
+                guarded(|| copy.insert_column_with(at, it)).is_some()
+            }
+        })
+    };
+    for shape in shapes::plan(key, lying) {
+        let mut copy = before.clone();
+        let fine_copy = call(&mut copy, shape);
+        if fine_copy != fine || copy != *after {
+            return Err(if row_form { 1150 } else { 1170 } + shape as i64);
+        }
+    }
+    if !row_form && key % 7 == 0 {
+        for shape in [12u8, 15] {
+            let mut copy = before.clone();
+            let fine_copy = call(&mut copy, shape);
+            let canonical = fine_copy == fine && copy == *after;
+            let clean_panic = !fine_copy && copy == *before;
+            if !(canonical || clean_panic) {
+                return Err(1190 + shape as i64);
+            }
+        }
+    }
+    Ok(())
+}
+
 /// One operation on the matrix under test; Err(code): two API forms that must agree did not.
 fn apply<E: Elem>(m: &mut Matrix<E>, o: Op) -> Result<bool, i64> {
     let fine = match o {
         Op::InsertRow(r, v) => guarded(|| m.insert_row(r, E::of(v))).is_some(),
-        Op::InsertRowWith(r, vs) => guarded(|| m.insert_row_with(r, elems::<E>(vs).into_iter())).is_some(),
+        Op::InsertRowWith(r, vs) => {
+            let before = m.clone();
+            let fine = guarded(|| m.insert_row_with(r, elems::<E>(vs.clone()).into_iter())).is_some();
+            insert_with_shapes(&before, m, fine, true, r, &vs)?;
+            fine
+        }
         Op::InsertColumn(c, v) => guarded(|| m.insert_column(c, E::of(v))).is_some(),
-        Op::InsertColumnWith(c, vs) => guarded(|| m.insert_column_with(c, elems::<E>(vs).into_iter())).is_some(),
+        Op::InsertColumnWith(c, vs) => {
+            let before = m.clone();
+            let fine = guarded(|| m.insert_column_with(c, elems::<E>(vs.clone()).into_iter())).is_some();
+            insert_with_shapes(&before, m, fine, false, c, &vs)?;
+            fine
+        }
         Op::RemoveRow(r) => guarded(|| m.remove_row(r)).is_some(),
         Op::RemoveColumn(c) => guarded(|| m.remove_column(c)).is_some(),
         Op::RetainMut(r, c) => {
